@@ -8,8 +8,8 @@ def plan(tier, seed):
     info = dict(info)
     units = []
     q = tier == 'quick'
-    stride = 5 if q else 1
-    nt = 3 if q else 6
+    stride = 5 if q else 3
+    nt = 3 if q else 4
     for di, d in enumerate(docs):
         if di >= info['scenario_skeletons'] and (di + seed) % stride:
             continue
@@ -25,7 +25,7 @@ def plan(tier, seed):
                 units.append(dict(hfile='rename.py', fname='c14_string', args=(v, k, 1 + (k + di) % 2)))
     info['variants'] = len(units)
     return dict(units=units,
-                bounds=dict(info, documents='every %s skeleton of the cover; up to 2 NAME holes symbolic per variant' % ('5th' if q else ''),
+                bounds=dict(info, documents='every %s skeleton of the cover (rotating with the seed) and all scenario skeletons; up to 2 NAME holes symbolic per variant' % ('5th' if q else '3rd'),
                             targets='first %d commands/environments of each document' % nt,
                             edits='rename to a symbolic plain name (1-2 letters, may collide with other names in the document); .string := symbolic TEXT(1..2); args reverse / prefix / tail / rotate / pop+insert / assign new list'),
                 outside=['renames that change the name class (verbatim-like, math, \\item, \\newcommand family, signature table)',
